@@ -333,9 +333,7 @@ def wf (j : Json) : Except String Json := do
     match labelOf toks with
     | some _ => none
     | none => match instrOfLine ctx toks with
-      | .ok ins => (match ins.kind with
-        | .bad why => some (i, why)
-        | _ => none)
+      | .ok _ => none      -- grammatical (an opcode the machine model cannot execute is still loadable IC10)
       | .error e => some (i, e))
   -- duplicate label definitions
   let names := ctx.labels.map (·.1)
